@@ -255,6 +255,14 @@ Proof.
   rewrite H. rewrite Hoff, Z.eqb_refl. reflexivity.
 Qed.
 
+(* repaired restart rule: a continuation request for a block other than the first is never refused *)
+Lemma refuse_restart_big n z q : 0 < size z <= n -> refuse_restart false (n / size z) q = false.
+Proof.
+  intros H. unfold refuse_restart.
+  replace (n / size z =? 0) with false; [reflexivity|].
+  symmetry. apply Z.eqb_neq. intros H0. apply Z.div_small_iff in H0; lia.
+Qed.
+
 (* a Block2 response block reaches the endpoint that holds the request and
    (cached = Some) a reassembly entry the block continues, or (cached = None) no
    entry, the block being a first one with M = 1 *)
@@ -270,6 +278,7 @@ Lemma handle_block app e r req b :
   metag cm = metag r -> bnum b * size szx0 = blen (mbody cm) -> mtok cm = mtok r ->
   0 <= eszx e <= 7 -> 0 <= bszx b ->
   let cm' := set_body cm (mbody cm ++ mbody r) in
+  (bmore b = true -> size (Z.min szx0 mx) <= blen (mbody cm')) ->
   handle app e r =
     if bmore b then
       (with_receiving e (tput (receiving e) (mtok r) cm'),
@@ -277,12 +286,12 @@ Lemma handle_block app e r req b :
     else
       (with_receiving e (tdel (tput (receiving e) (mtok r) cm') (mtok r)), None, [set_block false cm' None None], 0).
 Proof.
-  intros Happ Hs Hc Hobs Hb mx cached szx0 cm Hfirst Het Hoff Htok He Hb0 cm'.
+  intros Happ Hs Hc Hobs Hb mx cached szx0 cm Hfirst Het Hoff Htok He Hb0 cm' Hbig.
   assert (Hmx : 0 <= mx <= 7) by (unfold mx, fit; destruct (eszx e >? bszx b) eqn:E; lia).
   destruct (resp_code_tests _ Hc) as [Hsig [Hgd [Hup [Hcont Hrq]]]].
   unfold handle. rewrite Hs, (wants_resp r Hc).
-  unfold handle_received. rewrite Hsig, Hgd, Hup. rewrite Hb. fold mx.
-  unfold process_received. rewrite Hgd, Hb.
+  unfold handle_received, handle_received_s; fold_pr. rewrite Hsig, Hgd, Hup. rewrite Hb. fold mx.
+  unfold process_received, process_received_s. rewrite Hgd, Hb.
   unfold get_sent_request. rewrite Hs.
   unfold observe_key, is_observe_response. rewrite Hobs. cbn [negb].
   fold cached. 
@@ -293,7 +302,9 @@ Proof.
   destruct cached as [c0|] eqn:Hcached.
   - subst szx0 cm. 
     destruct (bmore b) eqn:Hm; rewrite Hre; cbn [andb negb].
-    + unfold start_sending. 
+    + rewrite refuse_restart_big
+        by (split; [pose proof (size_pos (Z.min (bszx b) mx)); lia|apply Hbig; reflexivity]).
+      unfold start_sending. 
       change (mcode (set_body req [])) with (mcode req). change (ms2 (set_body req [])) with (ms2 req).
       change (metag (set_body req [])) with (metag req). change (mother (set_body req [])) with (mother req).
       fold (cont_req req (mtok r) (Z.min (bszx b) mx) (blen (mbody cm'))).
@@ -302,6 +313,9 @@ Proof.
       replace (mtok cm' =? mtok r) with true by (symmetry; apply Z.eqb_eq; exact Htok).
       reflexivity.
   - subst szx0 cm. rewrite (Hfirst eq_refl). rewrite Hre. cbn [andb negb].
+    rewrite (Hfirst eq_refl) in Hbig.
+    rewrite refuse_restart_big
+      by (split; [pose proof (size_pos (Z.min (Z.min (bszx b) mx) mx)); lia|apply Hbig; reflexivity]).
     unfold start_sending.
     change (mcode (set_body req [])) with (mcode req). change (ms2 (set_body req [])) with (ms2 req).
     change (metag (set_body req [])) with (metag req). change (mother (set_body req [])) with (mother req).
@@ -318,8 +332,8 @@ Proof.
   assert (Hrecv : (let '(e', o, d) := handle_received app e r in
                    match o with Out w => (e', w, d, 0) | Fail => (e', Some (entity_incomplete (mtok r)), d, 1) end)
                   = (e, None, [r], 0)).
-  { unfold handle_received. rewrite Hsig, Hgd, Hup, Hb.
-    unfold process_received. rewrite Hgd, Hb. cbn [andb]. rewrite Happ. reflexivity. }
+  { unfold handle_received, handle_received_s; fold_pr. rewrite Hsig, Hgd, Hup, Hb.
+    unfold process_received, process_received_s. rewrite Hgd, Hb. cbn [andb]. rewrite Happ. reflexivity. }
   unfold handle. rewrite (wants_resp r Hc). destruct (tget (sending e) (mtok r)); exact Hrecv.
 Qed.
 
@@ -333,8 +347,8 @@ Proof.
   intros Happ Hs Hr Hc Hobs Hb Hm Hn.
   destruct (resp_code_tests _ Hc) as [Hsig [Hgd [Hup [Hcont Hrq]]]].
   unfold handle. rewrite Hs, (wants_resp r Hc).
-  unfold handle_received. rewrite Hsig, Hgd, Hup, Hb.
-  unfold process_received. rewrite Hgd, Hb.
+  unfold handle_received, handle_received_s; fold_pr. rewrite Hsig, Hgd, Hup, Hb.
+  unfold process_received, process_received_s. rewrite Hgd, Hb.
   unfold get_sent_request. rewrite Hs.
   unfold observe_key, is_observe_response. rewrite Hobs. cbn [negb].
   rewrite Hr, Hm, Hn. cbn [Z.eqb negb]. rewrite Happ. reflexivity.
@@ -484,6 +498,10 @@ Section Loop.
       { destruct (Z_lt_le_dec (K + Bs) L) as [Hlt|Hge]; [|exact Hge].
         apply (blk_more_iff resp K Bs HK ltac:(lia)) in Hlt. congruence. }
       rewrite tdel_tput_same. unfold rx_entry. rewrite (firstn_allZ (K + Bs) (mbody resp) Hge). reflexivity.
+    - (* repaired restart rule: the buffer holds at least one block after this one *)
+      intros Hm. apply blk_more_iff in Hm; [|exact HK|lia]. fold L in Hm.
+      assert (Hbl' : blen (mbody (rx_entry resp bo so (K + Bs))) = K + Bs) by (apply blen_firstn; fold L; lia).
+      rewrite Hbl'. destruct HBk as [k [Hk1 Hk2]]. pose proof Hsz. nia.
   Qed.
 
   (* "continuation request for byte K in flight" *)
@@ -665,8 +683,14 @@ Section Phase.
     replace (Z.min (Z.min s0 s) s) with s in H by (unfold s; lia).
     change (set_body (set_body first_block []) (mbody (set_body first_block []) ++ mbody first_block))
       with (rx_entry resp (Some b0) (Some L) B0) in H.
-    rewrite H. change (mbody (rx_entry resp (Some b0) (Some L) B0)) with (firstn (Z.to_nat B0) (mbody resp)).
-    rewrite (blen_firstn B0 (mbody resp)) by (fold L; lia). reflexivity.
+    rewrite H.
+    - change (mbody (rx_entry resp (Some b0) (Some L) B0)) with (firstn (Z.to_nat B0) (mbody resp)).
+      rewrite (blen_firstn B0 (mbody resp)) by (fold L; lia). reflexivity.
+    - (* repaired restart rule: the first block fills at least one block of the negotiated size *)
+      intros _. change (mbody (rx_entry resp (Some b0) (Some L) B0)) with (firstn (Z.to_nat B0) (mbody resp)).
+      rewrite (blen_firstn B0 (mbody resp)) by (fold L; lia).
+      destruct phase_sizes as [_ [[k [Hk1 Hk2]] _]]. assert (Hs7' : 0 <= s <= 7) by (unfold s; lia).
+      pose proof (size_pos s Hs7'). nia.
   Qed.
 
   (* "first block of the response in flight towards A" *)
@@ -854,7 +878,7 @@ Section Get.
       end.
   Proof.
     unfold handle. cbn [init wb new_ep sending tget].
-    unfold handle_received. cbn [mcode mb2 mtok get_req eszx emax fit].
+    unfold handle_received, handle_received_s; fold_pr. cbn [mcode mb2 mtok get_req eszx emax fit].
     change ((GET =? 0) || ((225 <=? GET) && (GET <=? 229))) with false.
     change ((GET =? GET) || (GET =? DELETE)) with true. cbn [orb].
     fold tok. rewrite app_b_get.
